@@ -23,6 +23,7 @@ import SwcVerif.Model.AlgoRunNormalizer
 import SwcVerif.Model.AlgoRunBranches
 import SwcVerif.Model.AlgoRunRedirect
 import SwcVerif.Model.AlgoRunAssemble
+import SwcVerif.Model.AlgoRunLMeasure
 import SwcVerif.Model.Assemble
 
 def dispatch (op : String) (args : List String) : String :=
@@ -64,6 +65,7 @@ def dispatch (op : String) (args : List String) : String :=
   | "glazy" => AlgoRun.handleLazy args
   | "gchain" => AlgoRun.handleChain args
   | "gredirect" => AlgoRun.handleRedirect args
+  | "glm" => AlgoRun.handleLm args
   | "asm" => Asm.handle args
   | "gasm" => AlgoRun.handleAsm args
   | "swcline" => SwcText.handleLine args
